@@ -39,6 +39,7 @@ def run(tier):
         C05.guard_rule(rep, f)
         C05.coupling_rule(rep, f)
         C05.orientation_rule(rep, f)
+        C05.index_rule(rep, f)
     rep.floor("instantiations analysed", 10)
     # floors are the counts of the Barlat kernels alone: a Hosford kernel rewritten in the per-pair style of Barlat keeps them
     rep.floor("divisions by an eigenvalue difference", 8)
